@@ -442,7 +442,7 @@ func nlist(xs []int) string {
 // ---------------------------------------------------------------------------
 
 func run(c *vh.Ctx) error {
-	c.Res.Rule = "rx: byte streams of 1..6 generated messages [type<8, random CBOR items of every header form] (plus malformed tails, decoder quirk classes, nesting-limit cases) cut into segment payloads by a scripted peer (whole, one byte per segment, random cuts, cuts at every offset of a header, all messages in one segment) and fed to the real readLoop; tx: 1..120 messages of sizes 2 B .. 200 KB (thorough 3 MiB) around multiples of 65535 queued on a real sender (pipelined / SendMessageAndWait / mixed, perturbed producer), wire tapped; distinct by segment hex resp. message specs + mode; non-trivial = at least two segments or two messages or an error case (rx), at least two messages or one message above one segment (tx)"
+	c.Res.Rule = "rx: byte streams of 1..6 generated messages [type<8, random CBOR items of every header form] (plus malformed tails, decoder quirk classes, nesting-limit cases) cut into segment payloads by a scripted peer (whole, one byte per segment, random cuts, cuts at every offset of a header, all messages in one segment) and fed to the real readLoop; tx: 1..120 messages of sizes 2 B .. 200 KB (thorough 3 MiB) around multiples of 65535 queued on a real sender (pipelined / SendMessageAndWait / mixed, perturbed producer), wire tapped; distinct by segment hex resp. message specs + mode; non-trivial = at least two segments or two messages or an error case (rx), at least two messages or one message above one segment (tx); dx: one real muxer with a responder AND an initiator instance of the same protocol id, fed by a scripted peer with 1..4 messages per direction cut into segments and interleaved (strict alternation / random / bursts; multi-segment messages of 65..200 KB in both directions), non-trivial = at least one pair of adjacent segments of opposite direction"
 	c.Res.Modelled = []string{
 		"the CBOR decode step of readLoop is Lib.CborParse.parse_full plus the configured fxamacker limits (nesting 256, 10M elements, built-in tag content) - validated by the rx correspondence, not verified against fxamacker",
 		"limit violations are only compared on complete items: fxamacker reports them as soon as they are visible in an incomplete buffer, the model when the item is complete (such streams always end in an error in both)",
@@ -480,12 +480,19 @@ func run(c *vh.Ctx) error {
 			var cc capCase
 			json.Unmarshal(probe.Replay, &cc)
 			doCap(c, &cc)
+		case "dx":
+			var dc dxCase
+			json.Unmarshal(probe.Replay, &dc)
+			doDx(c, cf, &dc)
 		}
 		cf.Flush()
 		return nil
 	}
 	for _, rc := range genRx(c) {
 		doRx(c, cf, rc)
+	}
+	for _, dc := range genDx(c) {
+		doDx(c, cf, dc)
 	}
 	for _, tc := range genTx(c) {
 		doTx(c, cf, tc)
